@@ -4,6 +4,7 @@ package main
 
 import (
 	"bytes"
+	"compress/flate"
 	"context"
 	"fmt"
 	"io"
@@ -39,6 +40,12 @@ func init() {
 	r8Wrap("C02", r8C02)
 	r8Wrap("C03", r8C03)
 	r8Wrap("C12", r8C12)
+	r8Wrap("C12", r8C12U)
+	r8Wrap("C16", r8C12U)
+	replayers["C12U"] = func(c *ctx, in []string) {
+		k, _ := strconv.Atoi(in[1])
+		c12U(c, unhx(in[0]), k, in[2] == "1")
+	}
 	r8Wrap("C06", r8C06)
 	r8Wrap("C09", r8H09B)
 	r8Wrap("C11", r8H09B)
@@ -708,4 +715,40 @@ func r8H09B(c *ctx) {
 	h09(c, "up", "GET", 1, 1, "h", mandMap("Upgrade"), nil, nil, nil, nil)
 	sel := []string{"chat"}
 	h09(c, "up", "GET", 1, 1, "h", append(mandMap(""), hmEntry{"Sec-Websocket-Protocol", []string{"chat, superchat"}}), nil, &sel, nil, nil)
+}
+
+// r8-C16b: a compressed message whose source is CUT after k bytes and says so (io.ErrUnexpectedEOF, what the frame reader
+// reports): the decompression reader reports an error at every k - also when k falls on a DEFLATE block boundary, where
+// the bytes so far plus the tail would inflate cleanly to a prefix of the message.
+//
+//	C12U <compressed message> <k> <byte reader 0|1> -> <error 0|1> <bytes delivered>
+func c12U(c *ctx, msg []byte, k int, br bool) {
+	src := newSrc([][]byte{msg[:k]}, "uex", br)
+	r := wsflate.NewReader(src, func(r io.Reader) wsflate.Decompressor { return flate.NewReader(r) })
+	out, err := ioutil.ReadAll(r)
+	c.emit("C12U %s %d %d -> %d %d", hx(msg), k, b2i(br), b2i(err != nil), len(out))
+}
+
+func r8C12U(c *ctx) {
+	// suffixedReader itself
+	base := []byte{0x61, 0, 0, 0xff, 0xff, 0x62}
+	for n := 0; n <= len(base); n++ {
+		for br := 0; br < 2; br++ {
+			c12S(c, br == 1, "uex", [][]byte{base[:n]}, []string{"r4", "r4", "r4", "r4", "r4"})
+			if br == 1 {
+				c12S(c, true, "uex", [][]byte{base[:n]}, []string{"b", "b", "b", "b", "b", "b", "b", "b", "b", "b", "b", "b"})
+			}
+		}
+	}
+	// a message of several blocks (each Flush ends one), cut at every offset
+	var b bytes.Buffer
+	w := wsflate.NewWriter(&b, func(w io.Writer) wsflate.Compressor { f, _ := flate.NewWriter(w, 6); return f })
+	for i := 0; i < 4; i++ {
+		w.Write(bytes.Repeat([]byte{byte('a' + i)}, 60+i))
+		w.Flush()
+	}
+	msg := append([]byte(nil), b.Bytes()...)
+	for k := 0; k < len(msg); k++ {
+		c12U(c, msg, k, k%2 == 0)
+	}
 }
